@@ -611,7 +611,14 @@ def selftest():
     ok = GraphQLResult(data={"a": 1})
     assert probs("{ a }", "execute", ok, [[["a"], "Int", "ok", None]]) == []
     assert probs("{ a }", "execute", GraphQLResult(data={"f": float("nan")})) == ["not-strict-json:nan-or-infinity"]
-    e = ResolverError("x", path=["a"])
+    # (stub errors: the self-test must not depend on the library's own to_dict)
+    def stub(**extra):
+        o = Loc2("x", 1, 3, ["a"])
+        del o.d["locations"]
+        o.d.update(extra)
+        return o
+
+    e = stub()
     assert probs("{ a }", "execute", GraphQLResult(data={"a": None}, errors=[e]), [[["a"], "Int", "raised", None]]) == []
     assert probs("{ a }", "execute", GraphQLResult(data={"a": None}, errors=[e]), [[["a"], "Int", "ok", None]]) == ["error-without-fault"]
     assert probs("{ a }", "execute", GraphQLResult(data={"a": None}), [[["a"], "Int!", "null", None]]) == ["null-without-error"]
@@ -621,13 +628,13 @@ def selftest():
     assert probs("{ a }", "validate", GraphQLResult(data=None, errors=[e])) == ["data-present"]
     import types as _types
 
-    ee = ResolverError("x", path=["a"], extensions=EXT)
+    ee = stub(extensions=dict(EXT))
     assert probs("{ a }", "execute", GraphQLResult(data={"a": None}, errors=[ee]), [[["a"], "Int", "raised", "ext"]]) == []
     assert probs("{ a }", "execute", GraphQLResult(data={"a": None}, errors=[ee]), [[["a"], "Int", "raised", "ext-empty"]]) == ["extensions-not-passed-through"]
     assert probs("{ a }", "execute", GraphQLResult(data={"a": None}, errors=[e]), [[["a"], "Int", "raised", "ext-empty"]]) == []
-    ev = ResolverError("x", path=["a"], extensions={"retry": 0})
+    ev = stub(extensions={"retry": 0})
     assert probs("{ a }", "execute", GraphQLResult(data={"a": None}, errors=[ev]), [[["a"], "Int", "raised", ["extv", 2]]]) == ["extensions-not-passed-through"]
-    ev = ResolverError("x", path=["a"], extensions={"retry": False})
+    ev = stub(extensions={"retry": False})
     assert probs("{ a }", "execute", GraphQLResult(data={"a": None}, errors=[ev]), [[["a"], "Int", "raised", ["extv", 2]]]) == []
     assert probs("{ a }", "execute", GraphQLResult(data={"a": None}, errors=[e]), [[["a"], "Int", "raised", ["extv", 0]]]) == ["extensions-not-passed-through"]
     nomsg = Loc2("m", 1, 3, ["a"])
